@@ -165,7 +165,8 @@ func R17(p *core.Prog) *core.Result {
 	sort.Slice(names, func(i, j int) bool { return names[i].String() < names[j].String() })
 	for _, n := range names {
 		if otherAlloc[n] {
-			r.Stats["types_allocated_in_init_and_elsewhere"]++; r.Stats["mixed:"+n.String()]++
+			r.Stats["types_allocated_in_init_and_elsewhere"]++
+			r.Stats["mixed:"+n.String()]++
 			continue
 		}
 		singletons++
@@ -329,9 +330,9 @@ func sortedKeys[V any](m map[string]V) []string {
 
 func init() {
 	register(&PropSpec{
-		ID:    "C19",
-		Level: "proof",
-		Decided: "instances share no mutable library memory: every package-level variable of the 7 library packages is an obligation, discharged when no store, map update, append/copy destination or write-through call rooted at it is reachable outside package initialisers; types instantiated only at init time (shared singletons) have no receiver-mutating method; parser/decoder inputs are only read (R16d); no goroutine is started and no sync primitive is relied upon.",
+		ID:         "C19",
+		Level:      "proof",
+		Decided:    "instances share no mutable library memory: every package-level variable of the 7 library packages is an obligation, discharged when no store, map update, append/copy destination or write-through call rooted at it is reachable outside package initialisers; types instantiated only at init time (shared singletons) have no receiver-mutating method; parser/decoder inputs are only read (R16d); no goroutine is started and no sync primitive is relied upon.",
 		NotDecided: "result equality under contention is a consequence of the absence of shared mutable state, not separately observed; user-supplied visitors, writers, folders and targets are assumed not to be shared; writes performed through reflect.Value setters on values derived from globals are only recognised when the Value is built from a global in the same function.",
 		Assumptions: []string{
 			"io.Writer.Write and user visitors do not modify the byte slices handed to them (io.Writer contract, StringRefVisitor documentation)",
